@@ -229,6 +229,9 @@ func (e Engine) Generate(prop, tier string, run int, seed uint64) *kernel.Scenar
 	default:
 		return nil
 	}
+	if prop == "C11" && kernel.NewRand(kernel.Derive(seed, "recreate")).Bool(0.3) {
+		sc.Config["recreate"] = 1
+	}
 	if mr := kernel.NewRand(kernel.Derive(seed, "many-channels")); prop == "C11" && mr.Bool(0.25) {
 		// many channels (the channel table outgrows whatever an iterator may
 		// hold at once) and RestoreAll iterations left open around some steps
@@ -285,6 +288,26 @@ func (e Engine) Generate(prop, tier string, run int, seed uint64) *kernel.Scenar
 		if c.removed || !r.Bool(stick) {
 			c = open[r.Intn(len(open))]
 			cur = c.i
+		}
+		if sc.Config["recreate"] == 1 && r.Bool(0.2) {
+			// a removed channel is created again: same parameters and ID, a new
+			// machine, newly drawn peers and parent
+			var gone []*chn
+			for _, y := range w.chs {
+				if y.removed && !y.dead {
+					gone = append(gone, y)
+				}
+			}
+			if len(gone) > 0 {
+				y := gone[r.Intn(len(gone))]
+				st := mkStep(r, prop, "create", y, nch)
+				st.Op = "recreate"
+				sc.Steps = append(sc.Steps, st)
+				w.step = len(sc.Steps) - 1
+				w.do(&st)
+				cur = y.i
+				continue
+			}
 		}
 		var op string
 		ph := c.m.Phase()
